@@ -139,7 +139,7 @@ PROPS["C10"] = {
         "the modular View contract (children stay within the constraint they are given) is stated in DESIGN.md but not mechanised",
         "the modular View contract (a child returns a size within the constraint it is given) is what the probe child embodies; the induction over tree depth that it justifies is by argument, not mechanised",
         "flex_layout with >= 2 children or flex factors, Text/Image/glyph views, JSON-built trees: outside both verifiers here",
-        "layouttree: SmallVec<[TreeNode<T>; 5]> replaced by Vec (N18); Layout's type-erased payload opaque; FindPath::next requires pos + size of every recorded rectangle to fit usize (rect_ok) - layouts are clamped to their constraints; "
+        "layouttree: SmallVec<[TreeNode<T>; 5]> replaced by Vec (N18); Layout's type-erased payload opaque; "
         "Tree::find_path (a constructor) and push_default/value_mut/Deref impls are not extracted; struct fields widened to pub for specification (N20)",
     ],
 }
